@@ -13,7 +13,7 @@ TRUSTED_EXTRA = []
 
 
 def gen_histories(ctx, shape, deep):
-    ops, flts = pc.op_alphabet(shape.sec, shape.ptype, shape.rules)
+    ops, flts = pc.op_alphabet(shape.sec, shape.ptype, shape.rules, read_fed=True)
     if shape.level == "unit":
         ops = ops + [("removewitheffected", shape.sec, shape.ptype, [shape.rules[0], shape.rules[2], shape.rules[0]]), ("values", shape.sec, shape.ptype, 0), ("values", shape.sec, shape.ptype, len(shape.rules[0]))]
     reads = pc.reads_for(shape.sec, shape.ptype, shape.rules, flts)
